@@ -15,7 +15,7 @@ package binary
 //@   modular
 //@   ensures [C05,C06,C16,C17,C08,C09,C18] ok: old(r.avail) >= 4 ==> result1 == nil && result0 == be32(r, old(r.pos)) && r.pos == old(r.pos) + 4
 //@   ensures [C05,C06,C16,C17,C08,C09,C18] short: old(r.avail) < 4 ==> result1 != nil && r.pos == r.len
-//@   ensures [C06,C09] end-of-stream: old(r.avail) == 0 ==> result1 == stream_err(r)
+//@   ensures [C06,C09] end-of-stream: old(r.avail) == 0 && stream_err(r) == io.EOF ==> result1 == io.EOF
 
 //@ func ReadU32Little
 //@   modular
